@@ -411,6 +411,9 @@ theorem wc_fields {g1 g2 : GState} (h : wc g1 [] = wc g2 []) :
     f GState.recAdmins, f GState.recDesc, f GState.recRelays, f GState.recNid, f GState.pending, f GState.props,
     f GState.secrets, f GState.past, f GState.last, f GState.active⟩
 
+theorem SameParent.core_eq {g1 g2 : GState} (h : SameParent g1 g2) :
+    (g1.path, g1.members, dataOf g1) = (g2.path, g2.members, dataOf g2) := by rw [h.path, h.members, h.data]
+
 theorem sameParent_of_wc {g1 g2 : GState} (h : wc g1 [] = wc g2 []) : SameParent g1 g2 := by
   obtain ⟨h1, h2, h3, _, _, _, _, _, _, _, _, h5, h6, h7, h8⟩ := wc_fields h
   exact ⟨h1, h2, h3, by simp only [ensureSecret_eq, h1, h5], h6, h7, h8⟩
